@@ -130,7 +130,8 @@ def _eval_eff(v, e):
     if k == "copyval":
         return val(v[1])
     if k == "useplace":
-        return _val_of(v[1], e)
+        x = _val_of(v[1], e)
+        return x if x is not None else e.get(("place",) + tuple(v[1][1:])) if v[1][0] == "p" else x
     if k == "refof":
         return ("R", v[1])
     if k == "agg":
@@ -356,7 +357,7 @@ class Body:
         wb = set(without_blocks)
         seen_states = set()
         out = set()
-        st = [(start, tuple(sorted((env or {}).items())))]
+        st = [(start, tuple(sorted((env or {}).items(), key=repr)))]
         n = 0
         while st:
             b, envt = st.pop()
@@ -370,7 +371,9 @@ class Body:
             e = dict(envt)
             if assume and b == start:
                 for al, av in assume.items():
-                    if al <= self.arg_count:
+                    if isinstance(al, tuple):
+                        e[("place",) + tuple(al[1:])] = av      # assumption about a part of a value (see _placeref)
+                    elif al <= self.arg_count:
                         e[al] = av
             t = self.blocks[b]["term"]
             effs = ca[b]
@@ -381,7 +384,7 @@ class Body:
                 l, v = eff[0], eff[1]
                 if isinstance(v, tuple):
                     v = _eval_eff(v, e)
-                if assume and l in assume:
+                if assume and not isinstance(l, tuple) and l in assume:
                     v = assume[l]
                 if v is None:
                     e.pop(l, None)
@@ -402,6 +405,18 @@ class Body:
                         if val == v:
                             tgt = tb
                     nxt = [tgt]
+            elif t["k"] == "switch" and t["op"].get("k") in ("copy", "move") and _placeref(t["op"]["place"]) is not None \
+                    and (isinstance(_val_of(_placeref(t["op"]["place"]), e), int) or (assume and _placeref(t["op"]["place"]) in assume)):
+                # a switch straight on a part of a value (`match self.field_length`, `match (*x).kind`)
+                r = _placeref(t["op"]["place"])
+                v = _val_of(r, e)
+                if not isinstance(v, int):
+                    v = assume[r]
+                tgt = t["otherwise"]
+                for val, tb in t["targets"]:
+                    if val == v:
+                        tgt = tb
+                nxt = [tgt]
             elif t["k"] == "switch" and switch_eval is not None:
                 v = switch_eval(b)
                 if v is not None:
@@ -413,7 +428,7 @@ class Body:
             # only keep knowledge about locals that are switched on somewhere (bounds the state space)
             keep = self._switch_locals()
             if assume or observe is not None:
-                et = tuple(sorted(e.items()))
+                et = tuple(sorted(e.items(), key=repr))
             else:
                 et = tuple(sorted((k, v) for k, v in e.items() if k in keep))
             for s in nxt:
